@@ -377,6 +377,8 @@ _ADDED7 = {
            "module function that only computes.",
     "C05": " (H1) registered here too.",
     "C06": " (LP1) no range loop of pkg/dsl with a conditional body leaves on every path of its first iteration.",
+    "C08": " (UN1) in the Python and MATLAB back ends a union met while walking a definition takes the definition's name only under `definition.Type == node` (fixes 06a4a33, ba1f7d6); "
+           "(DT1) the generated dtype_map registers the unions a definition uses before the definition's own, eagerly evaluated, entry (fix 107495d).",
     "C09": " (RD1) see C04; (V5) one audit of round 0 — validateUnionCases not descending into the type arguments of a reference — was wrong and is removed (fix df90284).",
     "C10": " (TA1) no unchecked single-value type assertion in the parsers; (P4n) a type switch with an aborting default over a variable last assigned from a nil-returning module function "
            "handles nil; (P4f) likewise for a nil-able definition field; (RC1) a cycle of calls that hand one *yaml.Node on unchanged carries contradictory Kind/Tag conditions "
@@ -388,7 +390,8 @@ _ADDED7 = {
     "C15": " (A7, A8) see C04.",
     "C16": " (NR1) the `required` argument emitted for ReadProtocolValue is `!step.IsStream()` of the step being printed; (S4) no emitted Python `__exit__` returns a true value.",
     "C17": " (CB1, PB1) registered here too; PB1 now judges an unchecked byte write over every pass of a loop, not only the first.",
-    "C20": " (W2, W3) registered here too.",
+    "C20": " (W2, W3) registered here too; (T11) between the result of generateInWatchMode and the Watcher.Add of its elements stand only nil/emptiness tests of the result and tests of "
+           "the single directory (fix 5d27e53: with one import the directory was never watched).",
 }
 for _src in (_ADDED, _ADDED3, _ADDED4, _ADDED5, _ADDED6, _ADDED7):
     for _k, _v in _src.items():
